@@ -256,6 +256,13 @@ impl WTClient {
         }) || self.dbm.load_appointment_receipt(tower_id, locator).is_some()
     }
 
+    /// Whether the given appointment is (still) pending for the given tower.
+    pub fn is_pending_appointment(&self, tower_id: TowerId, locator: Locator) -> bool {
+        self.towers
+            .get(&tower_id)
+            .map_or(false, |tower| tower.pending_appointments.contains(&locator))
+    }
+
     /// Adds a pending appointment to the tower record.
     pub fn add_pending_appointment(&mut self, tower_id: TowerId, appointment: &Appointment) {
         if let Some(tower) = self.towers.get_mut(&tower_id) {
